@@ -530,6 +530,10 @@ class Construct(object):
 
             def restream(data, func):
                 return func(BytesIO(data))
+            def restream_region(io, count, func):
+                from construct.core import BytesIOWithOffsets
+                offset = io.tell()
+                return func(BytesIOWithOffsets(io.read(count), io, offset))
             def reuse(obj, func):
                 return func(obj)
 
@@ -4911,7 +4915,7 @@ class Prefixed(Subconstruct):
 
     def _emitparse(self, code):
         sub = self.lengthfield.sizeof() if self.includelength else 0
-        return f"restream(io.read(({self.lengthfield._compileparse(code)})-({sub})), lambda io: ({self.subcon._compileparse(code)}))"
+        return f"reuse(({self.lengthfield._compileparse(code)})-({sub}), lambda count: restream_region(io, count, lambda io: ({self.subcon._compileparse(code)})))"
 
     def _emitseq(self, ksy, bitwise):
         return [
@@ -5033,7 +5037,7 @@ class FixedSized(Subconstruct):
         return length
 
     def _emitparse(self, code):
-        return f"restream(io.read({self.length}), lambda io: ({self.subcon._compileparse(code)}))"
+        return f"restream_region(io, {self.length}, lambda io: ({self.subcon._compileparse(code)}))"
 
     def _emitfulltype(self, ksy, bitwise):
         return dict(size=repr(self.length).replace("this.",""), **self.subcon._compilefulltype(ksy, bitwise))
